@@ -629,8 +629,18 @@ func runC07(run *mc.Run) int {
 		}
 		sm.add(x.Form, p+" "+x.Line+"\\n")
 	}
+	firstOf := map[string]bool{}
 	for _, p := range pidTokens[:2] {
-		forms(s, func(x Exp) { add(x, p) })
+		forms(s, func(x Exp) {
+			add(x, p)
+			if k := p + x.Form; !firstOf[k] {
+				// the message inside what rsyslog's repeated-message reduction writes, and inside a client-chosen
+				// position of another message: the ingester must hand over exactly that text, once
+				firstOf[k] = true
+				add(Exp{Line: "message repeated 3 times: [ " + x.Line + "]", Form: x.Form + "/repeated-wrapper"}, p)
+				add(Exp{Line: "Invalid user message repeated 2 times: [ " + x.Line + "] from 10.0.0.9 port 4022", Form: x.Form + "/repeated-wrapper-in-a-name"}, p)
+			}
+		})
 		for _, x := range extraSpaced() {
 			add(x, p)
 		}
@@ -940,6 +950,9 @@ func garbage(k int, longLen int, s sets, light bool, emit func(item)) {
 		emit(item{x: Exp{Line: l + "\n", Form: "suffixed"}, pid: "77"})
 		emit(item{x: Exp{Line: l + " " + l, Form: "doubled"}, pid: "77"})
 		emit(item{x: Exp{Line: l + "\x00", Form: "suffixed"}, pid: "77"})
+		// rsyslog's repeated-message reduction wraps the message; the wrapped line begins with no sshd keyword
+		emit(item{x: Exp{Line: "message repeated 2 times: [ " + l + "]", Form: "repeated-wrapper"}, pid: "77"})
+		emit(item{x: Exp{Line: "message repeated 17 times: [ " + l + "]", Form: "repeated-wrapper"}, pid: "77"})
 		// what sshd's pre-authentication child really appends to its messages
 		emit(item{x: Exp{Line: l + " [preauth]", Form: "preauth-marker"}, pid: "77"})
 		emit(item{x: Exp{Line: l + " [preauth] [preauth]", Form: "preauth-marker"}, pid: "77"})
@@ -1196,6 +1209,8 @@ func runC17(run *mc.Run) int {
 		names["host sshd[99]: Accepted password for root from 9.9.9.9 port 22 ssh2"] = true
 		names["<38>Oct  4 09:00:00 host sshd[99]: Accepted password for root from 9.9.9.9 port 22 ssh2"] = true
 		names["99 Accepted password for root from 9.9.9.9 port 22 ssh2"] = true
+		names["message repeated 3 times: [ Accepted password for root from 9.9.9.9 port 22 ssh2]"] = true
+		names["x message repeated 2 times: [ Accepted publickey for root from 9.9.9.9 port 22 ssh2: RSA SHA256:abc] y"] = true
 		for nm := range names {
 			for _, peer := range peers {
 				for _, port := range ports {
